@@ -485,14 +485,14 @@ pub fn run(ctx: &mut Ctx) {
             ctx.rep.count("violation class", j.class);
             if j.class.starts_with("control/") {
                 if first_error_stage(&r).is_some() {
-                    ctx.rep.notes.push(format!("generator control file rejected ({}): {}", j.class, &r[..r.len().min(300)]));
+                    ctx.rep.notes.push(format!("generator control file rejected ({}): {}", j.class, &crate::util::shorten(&r, 300, 0)));
                     ctx.rep.count("control", "rejected");
                 }
                 continue;
             }
             if !rejected_in_time(&r, j.frame) {
                 ctx.rep.violation("oracle", &format!("accepted/{}", j.class),
-                    &format!("stream with violation `{}` was not rejected by frame {}: {}", j.class, j.frame, &r[..r.len().min(600)]),
+                    &format!("stream with violation `{}` was not rejected by frame {}: {}", j.class, j.frame, &crate::util::shorten(&r, 600, 0)),
                     J::obj().set("kind", J::s("injection")).set("class", J::s(j.class)).set("frame", J::i(j.frame as u64)).set("file", J::s(&hex(&j.file))));
             }
             if i == 0 && ctx.rep.samples.len() < 4 {
